@@ -32,4 +32,13 @@ def obligations():
                 bounds='any bytes in an exact-size object, len 0..12, code 3 VBR with <=5 frames, both framings'))
     for fsi, sd, tier in ((0, 0, 'thorough'), (4, 0, 'thorough'), (2, 1, 'thorough'), (1, 0, 'thorough'), (3, 0, 'thorough'), (0, 1, 'thorough'), (4, 1, 'thorough')):
         L.append(native_ob('H2.native_front_end.fs%d.sd%d' % (fsi, sd), fsi, sd, tier, []))
+    for fsi, tier in ((0, 'quick'), (4, 'thorough'), (2, 'thorough')):
+        F20 = FSN[fsi] // 50
+        L.append(Ob('H3.frame_glue.fs%d' % FSN[fsi], 'C01_frame.c', ['celt/entdec.c', 'celt/entcode.c'], ['-DFSI=%d' % fsi, '-DPL=6'], unwind=1,
+                    replace=['smooth_fade_REAL:stub_fade'], memwords=F20 // 2 + 2,
+                    unwindset=['harness:7', 'opus_decode_frame:%d' % (6 * F20 * 2 + 2), 'opus_decode_frame@decoded_samples < frame_size:5', 'opus_decode_frame@audiosize > 0:8',
+                               'opus_decode_frame@c<st->channels:3', 'opus_decode_frame@i<F2_5:%d' % (F20 // 8 + 1), 'rec:opus_decode_frame:3', 'ec_dec_init:5', 'ec_dec_normalize:5', 'ec_dec_uint:3', 'ec_dec_bits:5'],
+                    functions=['opus_decode_frame', 'ec_dec_init'], budget=1500, tier=tier, replay=False, mem_gb=16,
+                    stubs=['silk_Decode, celt_decode_with_ec(_dred), smooth_fade: synth stubs touching exactly the region their contract lets them write', 'celt_decoder_ctl: argument-checking stub', 'silk_ResetDecoder: no-op'],
+                    bounds='Fs=%d; any (mode, bandwidth, frame duration) a TOC can announce, any previous mode / redundancy, 1-2 channels; any packet of 0..6 bytes or NULL; any frame_size 0..120 ms + 3 samples in an exact-size buffer; decode_fec 0/1; decode_gain 0' % FSN[fsi]))
     return L
